@@ -1,0 +1,391 @@
+// Copyright 2020-2025 Buf Technologies, Inc.
+//
+// Licensed under the Apache License, Version 2.0 (the "License");
+// you may not use this file except in compliance with the License.
+// You may obtain a copy of the License at
+//
+//      http://www.apache.org/licenses/LICENSE-2.0
+//
+// Unless required by applicable law or agreed to in writing, software
+// distributed under the License is distributed on an "AS IS" BASIS,
+// WITHOUT WARRANTIES OR CONDITIONS OF ANY KIND, either express or implied.
+// See the License for the specific language governing permissions and
+// limitations under the License.
+
+//go:build verif
+
+package bufcheckserverutil
+
+// Contracts for the gocv verifier (see /verif/DESIGN.md). Comment-only. Author: ca-Y (prefix y_, spec file
+// /verif/specs/C03_wiring.spec).
+//
+// THE PAIRING LAYER (C03, C04). Every breaking rule that compares an element with its previous version is
+// `NewBreaking<Kind>PairRuleHandler(handleBreaking<Rule>)`. The handler contracts (bufcheckserverhandle) say what
+// handle<Rule> does on ONE (current, previous) pair; the contracts below say on WHICH pairs it is run:
+//
+//   every element of the PREVIOUS files that has a counterpart in the CURRENT files -- matched by file path, by full
+//   name (messages, enums, services), by method name within matched services, by field number within matched
+//   messages, by (extendee, number) for extensions, by enum value number within matched enums -- is handed to f
+//   together with exactly that counterpart, in the order (responseWriter, request, current, previous); elements
+//   without counterpart are skipped (the *_NO_DELETE rules report those); an error of f aborts with that error.
+//
+// f is modelled as a deterministic function (`callback pure`): `f(w, q, c, p) == nil` can only be known for a
+// tuple on which the code actually called f and saw nil; `counted` additionally records every call through f in
+// ghost.cbArg<position> (opt-in via ghost.cbCalls in `modifies`; that list describes the closure, which runs later --
+// the constructor itself has no effect and is `pure`: the handler is a function of f alone, which is what the table
+// obligations `Handle<Rule> == New<Kind>RuleHandler(handle<Rule>)` of /verif/specs/C03_wiring.spec rest on). Two levels:
+//   closure N ensures ...   the function literal that does the iteration, verified as a function of its own (arbitrary
+//                           responseWriter / request, arbitrary later heap):
+//       all-pairs {C03}            err == nil ==> f(responseWriter, request, cur, prev) == nil for EVERY matched pair
+//       matched-by-... {C03}       the same stated on the element lists (where the index function has a verified contract)
+//       only-matched-... {C04}     every element handed to f (position 2: current, position 3: previous) belongs to a
+//                                  matched pair: nothing else is visited (enum values are passed as maps: not recorded)
+//       error-origin {C03 C04}     err != nil ==> err is the error of an index function or f's error on a MATCHED pair
+//       index-errors-reported      an index function failed ==> err != nil
+//   ensures handler-...     the returned check.RuleHandler r: y_run(r, c, w, q) is the error r returns when run (defined
+//                           by NewRuleHandler's contract, zz_verif_contracts.go): r returns nil ==> f returned nil on
+//                           every matched pair of q's files. For the composed constructors (methods = services o
+//                           methods-of-a-service, enum values = enums o values-of-an-enum, every lint constructor =
+//                           non-import files o ...) this is the composition of the iterations, proved from the callee's
+//                           handler-level clause and the verified clauses of the literal handed to it.
+//
+// Files: matched by PATH.
+//@ pure func NewBreakingFilePairRuleHandler(f) (r)
+//@   property C03 C04
+//@   callback pure f counted
+//@   modifies heap, ghost.cbCalls, ghost.cbArgs, ghost.cbArg0, ghost.cbArg1, ghost.cbArg2, ghost.cbArg3, ghost.fail, ghost.wfail
+//@   ensures r != nil
+//@   ensures handler-runs-f-on-all-pairs {C03}: forall c context.Context, w ResponseWriter, q Request :: y_run(r, c, w, q) == nil ==> (forall k string :: k in first(bufprotosource.FilePathToFile(q.AgainstProtosourceFiles())) && k in first(bufprotosource.FilePathToFile(q.ProtosourceFiles())) ==> f(w, q, first(bufprotosource.FilePathToFile(q.ProtosourceFiles()))[k], first(bufprotosource.FilePathToFile(q.AgainstProtosourceFiles()))[k]) == nil)
+//@   ensures handler-error-origin {C03 C04}: forall c context.Context, w ResponseWriter, q Request :: y_run(r, c, w, q) != nil ==> y_run(r, c, w, q) == second(bufprotosource.FilePathToFile(q.ProtosourceFiles())) || y_run(r, c, w, q) == second(bufprotosource.FilePathToFile(q.AgainstProtosourceFiles())) || (exists k string :: k in first(bufprotosource.FilePathToFile(q.AgainstProtosourceFiles())) && k in first(bufprotosource.FilePathToFile(q.ProtosourceFiles())) && y_run(r, c, w, q) == f(w, q, first(bufprotosource.FilePathToFile(q.ProtosourceFiles()))[k], first(bufprotosource.FilePathToFile(q.AgainstProtosourceFiles()))[k]))
+//@   closure 0 ensures all-pairs {C03}: err == nil ==> (forall k string :: k in first(bufprotosource.FilePathToFile(request.AgainstProtosourceFiles())) && k in first(bufprotosource.FilePathToFile(request.ProtosourceFiles())) ==> f(responseWriter, request, first(bufprotosource.FilePathToFile(request.ProtosourceFiles()))[k], first(bufprotosource.FilePathToFile(request.AgainstProtosourceFiles()))[k]) == nil)
+//@   closure 0 ensures matched-by-path {C03}: err == nil ==> (forall i int, j int :: 0 <= i && i < len(request.AgainstProtosourceFiles()) && 0 <= j && j < len(request.ProtosourceFiles()) && request.AgainstProtosourceFiles()[i].Path() == request.ProtosourceFiles()[j].Path() ==> f(responseWriter, request, request.ProtosourceFiles()[j], request.AgainstProtosourceFiles()[i]) == nil)
+//@   closure 0 ensures error-origin {C03 C04}: err != nil ==> err == second(bufprotosource.FilePathToFile(request.ProtosourceFiles())) || err == second(bufprotosource.FilePathToFile(request.AgainstProtosourceFiles())) || (exists k string :: k in first(bufprotosource.FilePathToFile(request.AgainstProtosourceFiles())) && k in first(bufprotosource.FilePathToFile(request.ProtosourceFiles())) && err == f(responseWriter, request, first(bufprotosource.FilePathToFile(request.ProtosourceFiles()))[k], first(bufprotosource.FilePathToFile(request.AgainstProtosourceFiles()))[k]))
+//@   closure 0 ensures index-errors-reported {C03}: second(bufprotosource.FilePathToFile(request.ProtosourceFiles())) != nil || second(bufprotosource.FilePathToFile(request.AgainstProtosourceFiles())) != nil ==> err != nil
+//@   loop 0 invariant filePathToFile == first(bufprotosource.FilePathToFile(request.ProtosourceFiles())) && previousFilePathToFile == first(bufprotosource.FilePathToFile(request.AgainstProtosourceFiles()))
+//@   loop 0 invariant second(bufprotosource.FilePathToFile(request.ProtosourceFiles())) == nil && second(bufprotosource.FilePathToFile(request.AgainstProtosourceFiles())) == nil
+//@   loop 0 invariant forall k string :: k in $visited && k in filePathToFile ==> f(responseWriter, request, filePathToFile[k], previousFilePathToFile[k]) == nil
+//@   closure 0 ensures only-matched-current {C04}: forall x ref :: x in ghost.cbArg2 && !(x in old(ghost.cbArg2)) ==> (exists k string :: k in first(bufprotosource.FilePathToFile(request.AgainstProtosourceFiles())) && k in first(bufprotosource.FilePathToFile(request.ProtosourceFiles())) && x == first(bufprotosource.FilePathToFile(request.ProtosourceFiles()))[k])
+//@   closure 0 ensures only-matched-previous {C04}: forall x ref :: x in ghost.cbArg3 && !(x in old(ghost.cbArg3)) ==> (exists k string :: k in first(bufprotosource.FilePathToFile(request.AgainstProtosourceFiles())) && k in first(bufprotosource.FilePathToFile(request.ProtosourceFiles())) && x == first(bufprotosource.FilePathToFile(request.AgainstProtosourceFiles()))[k])
+//@   loop 0 invariant forall x ref :: x in ghost.cbArg2 && !(x in old(ghost.cbArg2)) ==> (exists k string :: k in previousFilePathToFile && k in filePathToFile && x == filePathToFile[k])
+//@   loop 0 invariant forall x ref :: x in ghost.cbArg3 && !(x in old(ghost.cbArg3)) ==> (exists k string :: k in previousFilePathToFile && k in filePathToFile && x == previousFilePathToFile[k])
+//
+// Enums (nested ones included): matched by FULL NAME (bufprotosource.FullNameToEnum, trusted index).
+//@ pure func NewBreakingEnumPairRuleHandler(f) (r)
+//@   property C03 C04
+//@   callback pure f counted
+//@   modifies heap, ghost.cbCalls, ghost.cbArgs, ghost.cbArg0, ghost.cbArg1, ghost.cbArg2, ghost.cbArg3, ghost.fail, ghost.wfail
+//@   ensures r != nil
+//@   ensures handler-runs-f-on-all-pairs {C03}: forall c context.Context, w ResponseWriter, q Request :: y_run(r, c, w, q) == nil ==> (forall k string :: k in first(bufprotosource.FullNameToEnum(q.AgainstProtosourceFiles())) && k in first(bufprotosource.FullNameToEnum(q.ProtosourceFiles())) ==> f(w, q, first(bufprotosource.FullNameToEnum(q.ProtosourceFiles()))[k], first(bufprotosource.FullNameToEnum(q.AgainstProtosourceFiles()))[k]) == nil)
+//@   ensures handler-error-origin {C03 C04}: forall c context.Context, w ResponseWriter, q Request :: y_run(r, c, w, q) != nil ==> y_run(r, c, w, q) == second(bufprotosource.FullNameToEnum(q.ProtosourceFiles())) || y_run(r, c, w, q) == second(bufprotosource.FullNameToEnum(q.AgainstProtosourceFiles())) || (exists k string :: k in first(bufprotosource.FullNameToEnum(q.AgainstProtosourceFiles())) && k in first(bufprotosource.FullNameToEnum(q.ProtosourceFiles())) && y_run(r, c, w, q) == f(w, q, first(bufprotosource.FullNameToEnum(q.ProtosourceFiles()))[k], first(bufprotosource.FullNameToEnum(q.AgainstProtosourceFiles()))[k]))
+//@   closure 0 ensures all-pairs {C03}: err == nil ==> (forall k string :: k in first(bufprotosource.FullNameToEnum(request.AgainstProtosourceFiles())) && k in first(bufprotosource.FullNameToEnum(request.ProtosourceFiles())) ==> f(responseWriter, request, first(bufprotosource.FullNameToEnum(request.ProtosourceFiles()))[k], first(bufprotosource.FullNameToEnum(request.AgainstProtosourceFiles()))[k]) == nil)
+//@   closure 0 ensures error-origin {C03 C04}: err != nil ==> err == second(bufprotosource.FullNameToEnum(request.ProtosourceFiles())) || err == second(bufprotosource.FullNameToEnum(request.AgainstProtosourceFiles())) || (exists k string :: k in first(bufprotosource.FullNameToEnum(request.AgainstProtosourceFiles())) && k in first(bufprotosource.FullNameToEnum(request.ProtosourceFiles())) && err == f(responseWriter, request, first(bufprotosource.FullNameToEnum(request.ProtosourceFiles()))[k], first(bufprotosource.FullNameToEnum(request.AgainstProtosourceFiles()))[k]))
+//@   closure 0 ensures index-errors-reported {C03}: second(bufprotosource.FullNameToEnum(request.ProtosourceFiles())) != nil || second(bufprotosource.FullNameToEnum(request.AgainstProtosourceFiles())) != nil ==> err != nil
+//@   loop 0 invariant fullNameToEnum == first(bufprotosource.FullNameToEnum(request.ProtosourceFiles())) && previousFullNameToEnum == first(bufprotosource.FullNameToEnum(request.AgainstProtosourceFiles()))
+//@   loop 0 invariant second(bufprotosource.FullNameToEnum(request.ProtosourceFiles())) == nil && second(bufprotosource.FullNameToEnum(request.AgainstProtosourceFiles())) == nil
+//@   loop 0 invariant forall k string :: k in $visited && k in fullNameToEnum ==> f(responseWriter, request, fullNameToEnum[k], previousFullNameToEnum[k]) == nil
+//@   closure 0 ensures only-matched-current {C04}: forall x ref :: x in ghost.cbArg2 && !(x in old(ghost.cbArg2)) ==> (exists k string :: k in first(bufprotosource.FullNameToEnum(request.AgainstProtosourceFiles())) && k in first(bufprotosource.FullNameToEnum(request.ProtosourceFiles())) && x == first(bufprotosource.FullNameToEnum(request.ProtosourceFiles()))[k])
+//@   closure 0 ensures only-matched-previous {C04}: forall x ref :: x in ghost.cbArg3 && !(x in old(ghost.cbArg3)) ==> (exists k string :: k in first(bufprotosource.FullNameToEnum(request.AgainstProtosourceFiles())) && k in first(bufprotosource.FullNameToEnum(request.ProtosourceFiles())) && x == first(bufprotosource.FullNameToEnum(request.AgainstProtosourceFiles()))[k])
+//@   loop 0 invariant forall x ref :: x in ghost.cbArg2 && !(x in old(ghost.cbArg2)) ==> (exists k string :: k in previousFullNameToEnum && k in fullNameToEnum && x == fullNameToEnum[k])
+//@   loop 0 invariant forall x ref :: x in ghost.cbArg3 && !(x in old(ghost.cbArg3)) ==> (exists k string :: k in previousFullNameToEnum && k in fullNameToEnum && x == previousFullNameToEnum[k])
+//
+// Messages (nested ones included): matched by FULL NAME (bufprotosource.FullNameToMessage, trusted index).
+//@ pure func NewBreakingMessagePairRuleHandler(f) (r)
+//@   property C03 C04
+//@   callback pure f counted
+//@   modifies heap, ghost.cbCalls, ghost.cbArgs, ghost.cbArg0, ghost.cbArg1, ghost.cbArg2, ghost.cbArg3, ghost.fail, ghost.wfail
+//@   ensures r != nil
+//@   ensures handler-runs-f-on-all-pairs {C03}: forall c context.Context, w ResponseWriter, q Request :: y_run(r, c, w, q) == nil ==> (forall k string :: k in first(bufprotosource.FullNameToMessage(q.AgainstProtosourceFiles())) && k in first(bufprotosource.FullNameToMessage(q.ProtosourceFiles())) ==> f(w, q, first(bufprotosource.FullNameToMessage(q.ProtosourceFiles()))[k], first(bufprotosource.FullNameToMessage(q.AgainstProtosourceFiles()))[k]) == nil)
+//@   ensures handler-error-origin {C03 C04}: forall c context.Context, w ResponseWriter, q Request :: y_run(r, c, w, q) != nil ==> y_run(r, c, w, q) == second(bufprotosource.FullNameToMessage(q.ProtosourceFiles())) || y_run(r, c, w, q) == second(bufprotosource.FullNameToMessage(q.AgainstProtosourceFiles())) || (exists k string :: k in first(bufprotosource.FullNameToMessage(q.AgainstProtosourceFiles())) && k in first(bufprotosource.FullNameToMessage(q.ProtosourceFiles())) && y_run(r, c, w, q) == f(w, q, first(bufprotosource.FullNameToMessage(q.ProtosourceFiles()))[k], first(bufprotosource.FullNameToMessage(q.AgainstProtosourceFiles()))[k]))
+//@   closure 0 ensures all-pairs {C03}: err == nil ==> (forall k string :: k in first(bufprotosource.FullNameToMessage(request.AgainstProtosourceFiles())) && k in first(bufprotosource.FullNameToMessage(request.ProtosourceFiles())) ==> f(responseWriter, request, first(bufprotosource.FullNameToMessage(request.ProtosourceFiles()))[k], first(bufprotosource.FullNameToMessage(request.AgainstProtosourceFiles()))[k]) == nil)
+//@   closure 0 ensures error-origin {C03 C04}: err != nil ==> err == second(bufprotosource.FullNameToMessage(request.ProtosourceFiles())) || err == second(bufprotosource.FullNameToMessage(request.AgainstProtosourceFiles())) || (exists k string :: k in first(bufprotosource.FullNameToMessage(request.AgainstProtosourceFiles())) && k in first(bufprotosource.FullNameToMessage(request.ProtosourceFiles())) && err == f(responseWriter, request, first(bufprotosource.FullNameToMessage(request.ProtosourceFiles()))[k], first(bufprotosource.FullNameToMessage(request.AgainstProtosourceFiles()))[k]))
+//@   closure 0 ensures index-errors-reported {C03}: second(bufprotosource.FullNameToMessage(request.ProtosourceFiles())) != nil || second(bufprotosource.FullNameToMessage(request.AgainstProtosourceFiles())) != nil ==> err != nil
+//@   loop 0 invariant fullNameToMessage == first(bufprotosource.FullNameToMessage(request.ProtosourceFiles())) && previousFullNameToMessage == first(bufprotosource.FullNameToMessage(request.AgainstProtosourceFiles()))
+//@   loop 0 invariant second(bufprotosource.FullNameToMessage(request.ProtosourceFiles())) == nil && second(bufprotosource.FullNameToMessage(request.AgainstProtosourceFiles())) == nil
+//@   loop 0 invariant forall k string :: k in $visited && k in fullNameToMessage ==> f(responseWriter, request, fullNameToMessage[k], previousFullNameToMessage[k]) == nil
+//@   closure 0 ensures only-matched-current {C04}: forall x ref :: x in ghost.cbArg2 && !(x in old(ghost.cbArg2)) ==> (exists k string :: k in first(bufprotosource.FullNameToMessage(request.AgainstProtosourceFiles())) && k in first(bufprotosource.FullNameToMessage(request.ProtosourceFiles())) && x == first(bufprotosource.FullNameToMessage(request.ProtosourceFiles()))[k])
+//@   closure 0 ensures only-matched-previous {C04}: forall x ref :: x in ghost.cbArg3 && !(x in old(ghost.cbArg3)) ==> (exists k string :: k in first(bufprotosource.FullNameToMessage(request.AgainstProtosourceFiles())) && k in first(bufprotosource.FullNameToMessage(request.ProtosourceFiles())) && x == first(bufprotosource.FullNameToMessage(request.AgainstProtosourceFiles()))[k])
+//@   loop 0 invariant forall x ref :: x in ghost.cbArg2 && !(x in old(ghost.cbArg2)) ==> (exists k string :: k in previousFullNameToMessage && k in fullNameToMessage && x == fullNameToMessage[k])
+//@   loop 0 invariant forall x ref :: x in ghost.cbArg3 && !(x in old(ghost.cbArg3)) ==> (exists k string :: k in previousFullNameToMessage && k in fullNameToMessage && x == previousFullNameToMessage[k])
+//
+// Services: matched by FULL NAME (bufprotosource.FullNameToService, trusted index).
+//@ pure func NewBreakingServicePairRuleHandler(f) (r)
+//@   property C03 C04
+//@   callback pure f counted
+//@   modifies heap, ghost.cbCalls, ghost.cbArgs, ghost.cbArg0, ghost.cbArg1, ghost.cbArg2, ghost.cbArg3, ghost.fail, ghost.wfail
+//@   ensures r != nil
+//@   ensures handler-runs-f-on-all-pairs {C03}: forall c context.Context, w ResponseWriter, q Request :: y_run(r, c, w, q) == nil ==> (forall k string :: k in first(bufprotosource.FullNameToService(q.AgainstProtosourceFiles())) && k in first(bufprotosource.FullNameToService(q.ProtosourceFiles())) ==> f(w, q, first(bufprotosource.FullNameToService(q.ProtosourceFiles()))[k], first(bufprotosource.FullNameToService(q.AgainstProtosourceFiles()))[k]) == nil)
+//@   ensures handler-error-origin {C03 C04}: forall c context.Context, w ResponseWriter, q Request :: y_run(r, c, w, q) != nil ==> y_run(r, c, w, q) == second(bufprotosource.FullNameToService(q.ProtosourceFiles())) || y_run(r, c, w, q) == second(bufprotosource.FullNameToService(q.AgainstProtosourceFiles())) || (exists k string :: k in first(bufprotosource.FullNameToService(q.AgainstProtosourceFiles())) && k in first(bufprotosource.FullNameToService(q.ProtosourceFiles())) && y_run(r, c, w, q) == f(w, q, first(bufprotosource.FullNameToService(q.ProtosourceFiles()))[k], first(bufprotosource.FullNameToService(q.AgainstProtosourceFiles()))[k]))
+//@   closure 0 ensures all-pairs {C03}: err == nil ==> (forall k string :: k in first(bufprotosource.FullNameToService(request.AgainstProtosourceFiles())) && k in first(bufprotosource.FullNameToService(request.ProtosourceFiles())) ==> f(responseWriter, request, first(bufprotosource.FullNameToService(request.ProtosourceFiles()))[k], first(bufprotosource.FullNameToService(request.AgainstProtosourceFiles()))[k]) == nil)
+//@   closure 0 ensures error-origin {C03 C04}: err != nil ==> err == second(bufprotosource.FullNameToService(request.ProtosourceFiles())) || err == second(bufprotosource.FullNameToService(request.AgainstProtosourceFiles())) || (exists k string :: k in first(bufprotosource.FullNameToService(request.AgainstProtosourceFiles())) && k in first(bufprotosource.FullNameToService(request.ProtosourceFiles())) && err == f(responseWriter, request, first(bufprotosource.FullNameToService(request.ProtosourceFiles()))[k], first(bufprotosource.FullNameToService(request.AgainstProtosourceFiles()))[k]))
+//@   closure 0 ensures index-errors-reported {C03}: second(bufprotosource.FullNameToService(request.ProtosourceFiles())) != nil || second(bufprotosource.FullNameToService(request.AgainstProtosourceFiles())) != nil ==> err != nil
+//@   loop 0 invariant fullNameToService == first(bufprotosource.FullNameToService(request.ProtosourceFiles())) && previousFullNameToService == first(bufprotosource.FullNameToService(request.AgainstProtosourceFiles()))
+//@   loop 0 invariant second(bufprotosource.FullNameToService(request.ProtosourceFiles())) == nil && second(bufprotosource.FullNameToService(request.AgainstProtosourceFiles())) == nil
+//@   loop 0 invariant forall k string :: k in $visited && k in fullNameToService ==> f(responseWriter, request, fullNameToService[k], previousFullNameToService[k]) == nil
+//@   closure 0 ensures only-matched-current {C04}: forall x ref :: x in ghost.cbArg2 && !(x in old(ghost.cbArg2)) ==> (exists k string :: k in first(bufprotosource.FullNameToService(request.AgainstProtosourceFiles())) && k in first(bufprotosource.FullNameToService(request.ProtosourceFiles())) && x == first(bufprotosource.FullNameToService(request.ProtosourceFiles()))[k])
+//@   closure 0 ensures only-matched-previous {C04}: forall x ref :: x in ghost.cbArg3 && !(x in old(ghost.cbArg3)) ==> (exists k string :: k in first(bufprotosource.FullNameToService(request.AgainstProtosourceFiles())) && k in first(bufprotosource.FullNameToService(request.ProtosourceFiles())) && x == first(bufprotosource.FullNameToService(request.AgainstProtosourceFiles()))[k])
+//@   loop 0 invariant forall x ref :: x in ghost.cbArg2 && !(x in old(ghost.cbArg2)) ==> (exists k string :: k in previousFullNameToService && k in fullNameToService && x == fullNameToService[k])
+//@   loop 0 invariant forall x ref :: x in ghost.cbArg3 && !(x in old(ghost.cbArg3)) ==> (exists k string :: k in previousFullNameToService && k in fullNameToService && x == previousFullNameToService[k])
+//
+// Methods: within a (current, previous) service pair, matched by method NAME. (closure 0 is the function handed to
+// NewBreakingServicePairRuleHandler, which runs it on every matched service pair, see above.)
+//@ pure func NewBreakingMethodPairRuleHandler(f) (r)
+//@   property C03 C04
+//@   callback pure f counted
+//@   modifies heap, ghost.cbCalls, ghost.cbArgs, ghost.cbArg0, ghost.cbArg1, ghost.cbArg2, ghost.cbArg3, ghost.fail, ghost.wfail
+//@   ensures r != nil
+//@   ensures handler-runs-f-on-all-pairs {C03}: forall c context.Context, w ResponseWriter, q Request :: y_run(r, c, w, q) == nil ==> (forall s string, k string :: s in first(bufprotosource.FullNameToService(q.AgainstProtosourceFiles())) && s in first(bufprotosource.FullNameToService(q.ProtosourceFiles())) && k in first(bufprotosource.NameToMethod(first(bufprotosource.FullNameToService(q.AgainstProtosourceFiles()))[s])) && k in first(bufprotosource.NameToMethod(first(bufprotosource.FullNameToService(q.ProtosourceFiles()))[s])) ==> f(w, q, first(bufprotosource.NameToMethod(first(bufprotosource.FullNameToService(q.ProtosourceFiles()))[s]))[k], first(bufprotosource.NameToMethod(first(bufprotosource.FullNameToService(q.AgainstProtosourceFiles()))[s]))[k]) == nil)
+//@   closure 0 ensures all-pairs {C03}: err == nil ==> (forall k string :: k in first(bufprotosource.NameToMethod(previousService)) && k in first(bufprotosource.NameToMethod(service)) ==> f(responseWriter, request, first(bufprotosource.NameToMethod(service))[k], first(bufprotosource.NameToMethod(previousService))[k]) == nil)
+//@   closure 0 ensures matched-by-name {C03}: err == nil ==> (forall i int, j int :: 0 <= i && i < len(previousService.Methods()) && 0 <= j && j < len(service.Methods()) && previousService.Methods()[i].Name() == service.Methods()[j].Name() ==> f(responseWriter, request, service.Methods()[j], previousService.Methods()[i]) == nil)
+//@   closure 0 ensures error-origin {C03 C04}: err != nil ==> err == second(bufprotosource.NameToMethod(service)) || err == second(bufprotosource.NameToMethod(previousService)) || (exists k string :: k in first(bufprotosource.NameToMethod(previousService)) && k in first(bufprotosource.NameToMethod(service)) && err == f(responseWriter, request, first(bufprotosource.NameToMethod(service))[k], first(bufprotosource.NameToMethod(previousService))[k]))
+//@   closure 0 ensures index-errors-reported {C03}: second(bufprotosource.NameToMethod(service)) != nil || second(bufprotosource.NameToMethod(previousService)) != nil ==> err != nil
+//@   loop 0 invariant nameToMethod == first(bufprotosource.NameToMethod(service)) && previousNameToMethod == first(bufprotosource.NameToMethod(previousService))
+//@   loop 0 invariant second(bufprotosource.NameToMethod(service)) == nil && second(bufprotosource.NameToMethod(previousService)) == nil
+//@   loop 0 invariant forall k string :: k in $visited && k in nameToMethod ==> f(responseWriter, request, nameToMethod[k], previousNameToMethod[k]) == nil
+//@   closure 0 ensures only-matched-current {C04}: forall x ref :: x in ghost.cbArg2 && !(x in old(ghost.cbArg2)) ==> (exists k string :: k in first(bufprotosource.NameToMethod(previousService)) && k in first(bufprotosource.NameToMethod(service)) && x == first(bufprotosource.NameToMethod(service))[k])
+//@   closure 0 ensures only-matched-previous {C04}: forall x ref :: x in ghost.cbArg3 && !(x in old(ghost.cbArg3)) ==> (exists k string :: k in first(bufprotosource.NameToMethod(previousService)) && k in first(bufprotosource.NameToMethod(service)) && x == first(bufprotosource.NameToMethod(previousService))[k])
+//@   loop 0 invariant forall x ref :: x in ghost.cbArg2 && !(x in old(ghost.cbArg2)) ==> (exists k string :: k in previousNameToMethod && k in nameToMethod && x == nameToMethod[k])
+//@   loop 0 invariant forall x ref :: x in ghost.cbArg3 && !(x in old(ghost.cbArg3)) ==> (exists k string :: k in previousNameToMethod && k in nameToMethod && x == previousNameToMethod[k])
+//
+// Enum values: within a (current, previous) enum pair, matched by value NUMBER; f receives the name->value maps of
+// that number (several names with allow_alias). (closure 0 is the function handed to NewBreakingEnumPairRuleHandler.)
+//@ pure func NewBreakingEnumValuePairRuleHandler(f) (r)
+//@   property C03 C04
+//@   callback pure f counted
+//@   modifies heap, ghost.cbCalls, ghost.cbArgs, ghost.cbArg0, ghost.cbArg1, ghost.cbArg2, ghost.cbArg3, ghost.fail, ghost.wfail
+//@   ensures r != nil
+//@   ensures handler-runs-f-on-all-pairs {C03}: forall c context.Context, w ResponseWriter, q Request :: y_run(r, c, w, q) == nil ==> (forall s string, n int :: s in first(bufprotosource.FullNameToEnum(q.AgainstProtosourceFiles())) && s in first(bufprotosource.FullNameToEnum(q.ProtosourceFiles())) && n in first(bufprotosource.NumberToNameToEnumValue(first(bufprotosource.FullNameToEnum(q.AgainstProtosourceFiles()))[s])) && n in first(bufprotosource.NumberToNameToEnumValue(first(bufprotosource.FullNameToEnum(q.ProtosourceFiles()))[s])) ==> f(w, q, first(bufprotosource.NumberToNameToEnumValue(first(bufprotosource.FullNameToEnum(q.ProtosourceFiles()))[s]))[n], first(bufprotosource.NumberToNameToEnumValue(first(bufprotosource.FullNameToEnum(q.AgainstProtosourceFiles()))[s]))[n]) == nil)
+//@   closure 0 ensures all-pairs {C03}: err == nil ==> (forall n int :: n in first(bufprotosource.NumberToNameToEnumValue(previousEnum)) && n in first(bufprotosource.NumberToNameToEnumValue(enum)) ==> f(responseWriter, request, first(bufprotosource.NumberToNameToEnumValue(enum))[n], first(bufprotosource.NumberToNameToEnumValue(previousEnum))[n]) == nil)
+//@   closure 0 ensures matched-by-number {C03}: err == nil ==> (forall i int, j int :: 0 <= i && i < len(previousEnum.Values()) && 0 <= j && j < len(enum.Values()) && previousEnum.Values()[i].Number() == enum.Values()[j].Number() ==> f(responseWriter, request, first(bufprotosource.NumberToNameToEnumValue(enum))[enum.Values()[j].Number()], first(bufprotosource.NumberToNameToEnumValue(previousEnum))[enum.Values()[j].Number()]) == nil)
+//@   closure 0 ensures error-origin {C03 C04}: err != nil ==> err == second(bufprotosource.NumberToNameToEnumValue(enum)) || err == second(bufprotosource.NumberToNameToEnumValue(previousEnum)) || (exists n int :: n in first(bufprotosource.NumberToNameToEnumValue(previousEnum)) && n in first(bufprotosource.NumberToNameToEnumValue(enum)) && err == f(responseWriter, request, first(bufprotosource.NumberToNameToEnumValue(enum))[n], first(bufprotosource.NumberToNameToEnumValue(previousEnum))[n]))
+//@   closure 0 ensures index-errors-reported {C03}: second(bufprotosource.NumberToNameToEnumValue(enum)) != nil || second(bufprotosource.NumberToNameToEnumValue(previousEnum)) != nil ==> err != nil
+//@   loop 0 invariant numberToNameToEnumValue == first(bufprotosource.NumberToNameToEnumValue(enum)) && previousNumberToNameToEnumValue == first(bufprotosource.NumberToNameToEnumValue(previousEnum))
+//@   loop 0 invariant second(bufprotosource.NumberToNameToEnumValue(enum)) == nil && second(bufprotosource.NumberToNameToEnumValue(previousEnum)) == nil
+//@   loop 0 invariant forall n int :: n in $visited && n in numberToNameToEnumValue ==> f(responseWriter, request, numberToNameToEnumValue[n], previousNumberToNameToEnumValue[n]) == nil
+//
+// The extension index (extendee -> number -> extension) of a container, extensions nested in messages included.
+//@ func addToTypeToNumberToExtension(container, typeToNumberToExt) (err)
+//@   property C03 C04
+//@   modifies typeToNumberToExt
+//@   use y_declaresExt-unfold
+//@   reveal y_extIndexKeyed
+//@   ensures keyed: y_extIndexKeyed(old(typeToNumberToExt)) ==> (y_extIndexKeyed(typeToNumberToExt))
+//@   ensures all-declared-indexed: y_extIndexKeyed(old(typeToNumberToExt)) && err == nil ==> (forall e bufprotosource.Field :: y_declaresExt(container, e) ==> e.Extendee() in typeToNumberToExt && e.Number() in typeToNumberToExt[e.Extendee()] && typeToNumberToExt[e.Extendee()][e.Number()] == e)
+//@   ensures old-entries-kept: y_extIndexKeyed(old(typeToNumberToExt)) ==> (forall t string, n int :: t in old(typeToNumberToExt) && n in old(typeToNumberToExt)[t] ==> t in typeToNumberToExt && n in typeToNumberToExt[t] && typeToNumberToExt[t][n] == old(typeToNumberToExt)[t][n])
+//@   ensures only-declared-added: y_extIndexKeyed(old(typeToNumberToExt)) ==> (forall t string, n int :: t in typeToNumberToExt && n in typeToNumberToExt[t] ==> (t in old(typeToNumberToExt) && n in old(typeToNumberToExt)[t]) || y_declaresExt(container, typeToNumberToExt[t][n]))
+//@   loop 0 invariant y_extIndexKeyed(old(typeToNumberToExt)) ==> (y_extIndexKeyed(typeToNumberToExt))
+//@   loop 0 invariant y_extIndexKeyed(old(typeToNumberToExt)) ==> (forall k int :: 0 <= k && k < $i ==> container.Extensions()[k].Extendee() in typeToNumberToExt && container.Extensions()[k].Number() in typeToNumberToExt[container.Extensions()[k].Extendee()] && typeToNumberToExt[container.Extensions()[k].Extendee()][container.Extensions()[k].Number()] == container.Extensions()[k])
+//@   loop 0 invariant y_extIndexKeyed(old(typeToNumberToExt)) ==> (forall t string, n int :: t in old(typeToNumberToExt) && n in old(typeToNumberToExt)[t] ==> t in typeToNumberToExt && n in typeToNumberToExt[t] && typeToNumberToExt[t][n] == old(typeToNumberToExt)[t][n])
+//@   loop 0 invariant y_extIndexKeyed(old(typeToNumberToExt)) ==> (forall t string, n int :: t in typeToNumberToExt && n in typeToNumberToExt[t] ==> (t in old(typeToNumberToExt) && n in old(typeToNumberToExt)[t]) || (exists k int :: 0 <= k && k < $i && container.Extensions()[k] == typeToNumberToExt[t][n]))
+//@   loop 1 invariant y_extIndexKeyed(old(typeToNumberToExt)) ==> (y_extIndexKeyed(typeToNumberToExt))
+//@   loop 1 invariant y_extIndexKeyed(old(typeToNumberToExt)) ==> (forall k int :: 0 <= k && k < len(container.Extensions()) ==> container.Extensions()[k].Extendee() in typeToNumberToExt && container.Extensions()[k].Number() in typeToNumberToExt[container.Extensions()[k].Extendee()] && typeToNumberToExt[container.Extensions()[k].Extendee()][container.Extensions()[k].Number()] == container.Extensions()[k])
+//@   loop 1 invariant y_extIndexKeyed(old(typeToNumberToExt)) ==> (forall k int, e bufprotosource.Field :: 0 <= k && k < $i && y_declaresExt(container.Messages()[k], e) ==> e.Extendee() in typeToNumberToExt && e.Number() in typeToNumberToExt[e.Extendee()] && typeToNumberToExt[e.Extendee()][e.Number()] == e)
+//@   loop 1 invariant y_extIndexKeyed(old(typeToNumberToExt)) ==> (forall t string, n int :: t in old(typeToNumberToExt) && n in old(typeToNumberToExt)[t] ==> t in typeToNumberToExt && n in typeToNumberToExt[t] && typeToNumberToExt[t][n] == old(typeToNumberToExt)[t][n])
+//@   loop 1 invariant y_extIndexKeyed(old(typeToNumberToExt)) ==> (forall t string, n int :: t in typeToNumberToExt && n in typeToNumberToExt[t] ==> (t in old(typeToNumberToExt) && n in old(typeToNumberToExt)[t]) || y_declaresExt(container, typeToNumberToExt[t][n]))
+//
+// Fields: (1) within every matched (current, previous) message pair (by full name), every previous field whose NUMBER
+// is a field number of the current message, with that field; (2) every previous extension (declared at any depth of
+// any previous file) for which a current file declares an extension of the same extendee with the same NUMBER, with it.
+//@ pure func NewBreakingFieldPairRuleHandler(f) (r)
+//@   property C03 C04
+//@   callback pure f counted
+//@   modifies heap, ghost.cbCalls, ghost.cbArgs, ghost.cbArg0, ghost.cbArg1, ghost.cbArg2, ghost.cbArg3, ghost.fail, ghost.wfail
+//@   reveal y_extIndexKeyed
+//@   ensures r != nil
+//@   ensures handler-fields-matched-by-number {C03}: forall c context.Context, w ResponseWriter, q Request :: y_run(r, c, w, q) == nil ==> (forall k string, i int, j int :: k in first(bufprotosource.FullNameToMessage(q.AgainstProtosourceFiles())) && k in first(bufprotosource.FullNameToMessage(q.ProtosourceFiles())) && 0 <= i && i < len(first(bufprotosource.FullNameToMessage(q.AgainstProtosourceFiles()))[k].Fields()) && 0 <= j && j < len(first(bufprotosource.FullNameToMessage(q.ProtosourceFiles()))[k].Fields()) && first(bufprotosource.FullNameToMessage(q.AgainstProtosourceFiles()))[k].Fields()[i].Number() == first(bufprotosource.FullNameToMessage(q.ProtosourceFiles()))[k].Fields()[j].Number() ==> f(w, q, first(bufprotosource.FullNameToMessage(q.ProtosourceFiles()))[k].Fields()[j], first(bufprotosource.FullNameToMessage(q.AgainstProtosourceFiles()))[k].Fields()[i]) == nil)
+//@   ensures handler-extensions-matched-by-extendee-and-number {C03}: forall c context.Context, w ResponseWriter, q Request :: y_run(r, c, w, q) == nil ==> (forall a int, b int, e bufprotosource.Field, p bufprotosource.Field :: 0 <= a && a < len(q.ProtosourceFiles()) && 0 <= b && b < len(q.AgainstProtosourceFiles()) && y_declaresExt(q.ProtosourceFiles()[a], e) && y_declaresExt(q.AgainstProtosourceFiles()[b], p) && e.Extendee() == p.Extendee() && e.Number() == p.Number() ==> f(w, q, e, p) == nil)
+//@   closure 0 ensures fields-matched-by-number {C03}: err == nil ==> (forall k string, i int, j int :: k in first(bufprotosource.FullNameToMessage(request.AgainstProtosourceFiles())) && k in first(bufprotosource.FullNameToMessage(request.ProtosourceFiles())) && 0 <= i && i < len(first(bufprotosource.FullNameToMessage(request.AgainstProtosourceFiles()))[k].Fields()) && 0 <= j && j < len(first(bufprotosource.FullNameToMessage(request.ProtosourceFiles()))[k].Fields()) && first(bufprotosource.FullNameToMessage(request.AgainstProtosourceFiles()))[k].Fields()[i].Number() == first(bufprotosource.FullNameToMessage(request.ProtosourceFiles()))[k].Fields()[j].Number() ==> f(responseWriter, request, first(bufprotosource.FullNameToMessage(request.ProtosourceFiles()))[k].Fields()[j], first(bufprotosource.FullNameToMessage(request.AgainstProtosourceFiles()))[k].Fields()[i]) == nil)
+//@   closure 0 ensures extensions-matched-by-extendee-and-number {C03}: err == nil ==> (forall a int, b int, e bufprotosource.Field, p bufprotosource.Field :: 0 <= a && a < len(request.ProtosourceFiles()) && 0 <= b && b < len(request.AgainstProtosourceFiles()) && y_declaresExt(request.ProtosourceFiles()[a], e) && y_declaresExt(request.AgainstProtosourceFiles()[b], p) && e.Extendee() == p.Extendee() && e.Number() == p.Number() ==> f(responseWriter, request, e, p) == nil)
+//@   closure 0 ensures index-errors-reported {C03}: second(bufprotosource.FullNameToMessage(request.ProtosourceFiles())) != nil || second(bufprotosource.FullNameToMessage(request.AgainstProtosourceFiles())) != nil ==> err != nil
+//@   loop 0 invariant fullNameToMessage == first(bufprotosource.FullNameToMessage(request.ProtosourceFiles())) && previousFullNameToMessage == first(bufprotosource.FullNameToMessage(request.AgainstProtosourceFiles()))
+//@   loop 0 invariant forall k string, i int, j int :: k in $visited && k in fullNameToMessage && 0 <= i && i < len(previousFullNameToMessage[k].Fields()) && 0 <= j && j < len(fullNameToMessage[k].Fields()) && previousFullNameToMessage[k].Fields()[i].Number() == fullNameToMessage[k].Fields()[j].Number() ==> f(responseWriter, request, fullNameToMessage[k].Fields()[j], previousFullNameToMessage[k].Fields()[i]) == nil
+//@   loop 1 invariant forall n int :: n in $visited && n in numberToField ==> f(responseWriter, request, numberToField[n], previousNumberToField[n]) == nil
+//@   loop 2 invariant y_extIndexKeyed(typeToNumberToField)
+//@   loop 2 invariant forall a int, e bufprotosource.Field :: 0 <= a && a < $i && y_declaresExt(request.ProtosourceFiles()[a], e) ==> e.Extendee() in typeToNumberToField && e.Number() in typeToNumberToField[e.Extendee()] && typeToNumberToField[e.Extendee()][e.Number()] == e
+//@   loop 3 invariant y_extIndexKeyed(previousTypeToNumberToField)
+//@   loop 3 invariant forall b int, p bufprotosource.Field :: 0 <= b && b < $i && y_declaresExt(request.AgainstProtosourceFiles()[b], p) ==> p.Extendee() in previousTypeToNumberToField && p.Number() in previousTypeToNumberToField[p.Extendee()] && previousTypeToNumberToField[p.Extendee()][p.Number()] == p
+//@   loop 4 invariant forall t string, n int :: t in $visited && n in previousTypeToNumberToField[t] && t in typeToNumberToField && n in typeToNumberToField[t] ==> f(responseWriter, request, typeToNumberToField[t][n], previousTypeToNumberToField[t][n]) == nil
+//@   loop 5 invariant forall n int :: n in $visited && n in numberToField ==> f(responseWriter, request, numberToField[n], previousNumberToField[n]) == nil
+//@   loop 0 invariant forall x ref :: x in ghost.cbArg2 && !(x in old(ghost.cbArg2)) ==> (exists k string, j int :: k in previousFullNameToMessage && k in fullNameToMessage && 0 <= j && j < len(fullNameToMessage[k].Fields()) && x == fullNameToMessage[k].Fields()[j]) || (exists a int :: 0 <= a && a < len(request.ProtosourceFiles()) && y_declaresExt(request.ProtosourceFiles()[a], x))
+//@   loop 0 invariant forall x ref :: x in ghost.cbArg3 && !(x in old(ghost.cbArg3)) ==> (exists k string, j int :: k in previousFullNameToMessage && k in fullNameToMessage && 0 <= j && j < len(previousFullNameToMessage[k].Fields()) && x == previousFullNameToMessage[k].Fields()[j]) || (exists a int :: 0 <= a && a < len(request.AgainstProtosourceFiles()) && y_declaresExt(request.AgainstProtosourceFiles()[a], x))
+//@   loop 1 invariant forall x ref :: x in ghost.cbArg2 && !(x in old(ghost.cbArg2)) ==> (exists k string, j int :: k in previousFullNameToMessage && k in fullNameToMessage && 0 <= j && j < len(fullNameToMessage[k].Fields()) && x == fullNameToMessage[k].Fields()[j]) || (exists a int :: 0 <= a && a < len(request.ProtosourceFiles()) && y_declaresExt(request.ProtosourceFiles()[a], x))
+//@   loop 1 invariant forall x ref :: x in ghost.cbArg3 && !(x in old(ghost.cbArg3)) ==> (exists k string, j int :: k in previousFullNameToMessage && k in fullNameToMessage && 0 <= j && j < len(previousFullNameToMessage[k].Fields()) && x == previousFullNameToMessage[k].Fields()[j]) || (exists a int :: 0 <= a && a < len(request.AgainstProtosourceFiles()) && y_declaresExt(request.AgainstProtosourceFiles()[a], x))
+//@   loop 2 invariant forall x ref :: x in ghost.cbArg2 && !(x in old(ghost.cbArg2)) ==> (exists k string, j int :: k in previousFullNameToMessage && k in fullNameToMessage && 0 <= j && j < len(fullNameToMessage[k].Fields()) && x == fullNameToMessage[k].Fields()[j]) || (exists a int :: 0 <= a && a < len(request.ProtosourceFiles()) && y_declaresExt(request.ProtosourceFiles()[a], x))
+//@   loop 2 invariant forall x ref :: x in ghost.cbArg3 && !(x in old(ghost.cbArg3)) ==> (exists k string, j int :: k in previousFullNameToMessage && k in fullNameToMessage && 0 <= j && j < len(previousFullNameToMessage[k].Fields()) && x == previousFullNameToMessage[k].Fields()[j]) || (exists a int :: 0 <= a && a < len(request.AgainstProtosourceFiles()) && y_declaresExt(request.AgainstProtosourceFiles()[a], x))
+//@   loop 3 invariant forall x ref :: x in ghost.cbArg2 && !(x in old(ghost.cbArg2)) ==> (exists k string, j int :: k in previousFullNameToMessage && k in fullNameToMessage && 0 <= j && j < len(fullNameToMessage[k].Fields()) && x == fullNameToMessage[k].Fields()[j]) || (exists a int :: 0 <= a && a < len(request.ProtosourceFiles()) && y_declaresExt(request.ProtosourceFiles()[a], x))
+//@   loop 3 invariant forall x ref :: x in ghost.cbArg3 && !(x in old(ghost.cbArg3)) ==> (exists k string, j int :: k in previousFullNameToMessage && k in fullNameToMessage && 0 <= j && j < len(previousFullNameToMessage[k].Fields()) && x == previousFullNameToMessage[k].Fields()[j]) || (exists a int :: 0 <= a && a < len(request.AgainstProtosourceFiles()) && y_declaresExt(request.AgainstProtosourceFiles()[a], x))
+//@   loop 4 invariant forall x ref :: x in ghost.cbArg2 && !(x in old(ghost.cbArg2)) ==> (exists k string, j int :: k in previousFullNameToMessage && k in fullNameToMessage && 0 <= j && j < len(fullNameToMessage[k].Fields()) && x == fullNameToMessage[k].Fields()[j]) || (exists a int :: 0 <= a && a < len(request.ProtosourceFiles()) && y_declaresExt(request.ProtosourceFiles()[a], x))
+//@   loop 4 invariant forall x ref :: x in ghost.cbArg3 && !(x in old(ghost.cbArg3)) ==> (exists k string, j int :: k in previousFullNameToMessage && k in fullNameToMessage && 0 <= j && j < len(previousFullNameToMessage[k].Fields()) && x == previousFullNameToMessage[k].Fields()[j]) || (exists a int :: 0 <= a && a < len(request.AgainstProtosourceFiles()) && y_declaresExt(request.AgainstProtosourceFiles()[a], x))
+//@   loop 5 invariant forall x ref :: x in ghost.cbArg2 && !(x in old(ghost.cbArg2)) ==> (exists k string, j int :: k in previousFullNameToMessage && k in fullNameToMessage && 0 <= j && j < len(fullNameToMessage[k].Fields()) && x == fullNameToMessage[k].Fields()[j]) || (exists a int :: 0 <= a && a < len(request.ProtosourceFiles()) && y_declaresExt(request.ProtosourceFiles()[a], x))
+//@   loop 5 invariant forall x ref :: x in ghost.cbArg3 && !(x in old(ghost.cbArg3)) ==> (exists k string, j int :: k in previousFullNameToMessage && k in fullNameToMessage && 0 <= j && j < len(previousFullNameToMessage[k].Fields()) && x == previousFullNameToMessage[k].Fields()[j]) || (exists a int :: 0 <= a && a < len(request.AgainstProtosourceFiles()) && y_declaresExt(request.AgainstProtosourceFiles()[a], x))
+//@   loop 2 invariant forall t string, n int :: t in typeToNumberToField && n in typeToNumberToField[t] ==> (exists a int :: 0 <= a && a < $i && y_declaresExt(request.ProtosourceFiles()[a], typeToNumberToField[t][n]))
+//@   loop 3 invariant forall t string, n int :: t in previousTypeToNumberToField && n in previousTypeToNumberToField[t] ==> (exists b int :: 0 <= b && b < $i && y_declaresExt(request.AgainstProtosourceFiles()[b], previousTypeToNumberToField[t][n]))
+//@   closure 0 ensures only-current-fields-and-extensions {C04}: forall x ref :: x in ghost.cbArg2 && !(x in old(ghost.cbArg2)) ==> (exists k string, j int :: k in first(bufprotosource.FullNameToMessage(request.AgainstProtosourceFiles())) && k in first(bufprotosource.FullNameToMessage(request.ProtosourceFiles())) && 0 <= j && j < len(first(bufprotosource.FullNameToMessage(request.ProtosourceFiles()))[k].Fields()) && x == first(bufprotosource.FullNameToMessage(request.ProtosourceFiles()))[k].Fields()[j]) || (exists a int :: 0 <= a && a < len(request.ProtosourceFiles()) && y_declaresExt(request.ProtosourceFiles()[a], x))
+//@   closure 0 ensures only-previous-fields-and-extensions {C04}: forall x ref :: x in ghost.cbArg3 && !(x in old(ghost.cbArg3)) ==> (exists k string, j int :: k in first(bufprotosource.FullNameToMessage(request.AgainstProtosourceFiles())) && k in first(bufprotosource.FullNameToMessage(request.ProtosourceFiles())) && 0 <= j && j < len(first(bufprotosource.FullNameToMessage(request.AgainstProtosourceFiles()))[k].Fields()) && x == first(bufprotosource.FullNameToMessage(request.AgainstProtosourceFiles()))[k].Fields()[j]) || (exists a int :: 0 <= a && a < len(request.AgainstProtosourceFiles()) && y_declaresExt(request.AgainstProtosourceFiles()[a], x))
+//
+// THE LINT ITERATION (C05). Every per-element lint rule is `NewLint<Kind>RuleHandler(handleLint<Rule>)`; the handler
+// contracts (bufcheckserverhandle/zz_verif_contracts_lint.go) say what handleLint<Rule> does on ONE element, the
+// contracts below on WHICH elements it is run: "The function will be called for each <Kind> within each File in the
+// request. Files that are imports are skipped." -- nested messages/enums included, an error of f aborts with it.
+// Same two levels as above (closure N ensures / ensures handler-...).
+//
+// The files slice does not include imports.
+//@ pure func NewLintFilesRuleHandler(f) (r)
+//@   property C05
+//@   callback pure f
+//@   modifies heap, ghost.cbCalls, ghost.cbArgs, ghost.cbArg0, ghost.cbArg1, ghost.cbArg2, ghost.cbArg3, ghost.fail, ghost.wfail
+//@   use y_nonImportCount-step, y_nonImportCount-zero
+//@   reveal y_nonImportsOf
+//@   ensures r != nil
+//@   ensures handler-runs-f-on-the-non-import-files {C05}: forall c context.Context, w ResponseWriter, q Request :: (exists fs []bufprotosource.File :: y_run(r, c, w, q) == f(w, q, fs) && y_nonImportsOf(fs, q.ProtosourceFiles(), len(q.ProtosourceFiles())))
+//@   closure 0 ensures f-on-the-non-import-files {C05}: exists fs []bufprotosource.File :: err == f(responseWriter, request, fs) && y_nonImportsOf(fs, request.ProtosourceFiles(), len(request.ProtosourceFiles()))
+//@   loop 0 invariant files == request.ProtosourceFiles() && y_nonImportsOf(filesWithoutImports, files, $i)
+//
+//@ pure func NewLintFileRuleHandler(f) (r)
+//@   property C05
+//@   callback pure f counted
+//@   modifies heap, ghost.cbCalls, ghost.cbArgs, ghost.cbArg0, ghost.cbArg1, ghost.cbArg2, ghost.cbArg3, ghost.fail, ghost.wfail
+//@   reveal y_nonImportsOf
+//@   ensures r != nil
+//@   ensures handler-runs-f-on-every-non-import-file {C05}: forall c context.Context, w ResponseWriter, q Request :: y_run(r, c, w, q) == nil ==> (forall i int :: 0 <= i && i < len(q.ProtosourceFiles()) && !q.ProtosourceFiles()[i].IsImport() ==> f(w, q, q.ProtosourceFiles()[i]) == nil)
+//@   ensures handler-error-origin {C05}: forall c context.Context, w ResponseWriter, q Request :: y_run(r, c, w, q) != nil ==> (exists i int :: 0 <= i && i < len(q.ProtosourceFiles()) && !q.ProtosourceFiles()[i].IsImport() && y_run(r, c, w, q) == f(w, q, q.ProtosourceFiles()[i]))
+//@   closure 0 ensures every-file {C05}: err == nil ==> (forall i int :: 0 <= i && i < len(files) ==> f(responseWriter, request, files[i]) == nil)
+//@   closure 0 ensures error-origin {C05}: err != nil ==> (exists i int :: 0 <= i && i < len(files) && err == f(responseWriter, request, files[i]))
+//@   loop 0 invariant forall i int :: 0 <= i && i < $i ==> f(responseWriter, request, files[i]) == nil
+//@   closure 0 ensures only-listed-elements {C05}: forall x ref :: x in ghost.cbArg2 && !(x in old(ghost.cbArg2)) ==> (exists j int :: 0 <= j && j < len(files) && x == files[j])
+//@   loop 0 invariant forall x ref :: x in ghost.cbArg2 && !(x in old(ghost.cbArg2)) ==> (exists j int :: 0 <= j && j < $i && x == files[j])
+//
+//@ pure func NewLintFileImportRuleHandler(f) (r)
+//@   property C05
+//@   callback pure f counted
+//@   modifies heap, ghost.cbCalls, ghost.cbArgs, ghost.cbArg0, ghost.cbArg1, ghost.cbArg2, ghost.cbArg3, ghost.fail, ghost.wfail
+//@   ensures r != nil
+//@   ensures handler-runs-f-on-every-import-statement {C05}: forall c context.Context, w ResponseWriter, q Request :: y_run(r, c, w, q) == nil ==> (forall i int, j int :: 0 <= i && i < len(q.ProtosourceFiles()) && !q.ProtosourceFiles()[i].IsImport() && 0 <= j && j < len(q.ProtosourceFiles()[i].FileImports()) ==> f(w, q, q.ProtosourceFiles()[i].FileImports()[j]) == nil)
+//@   closure 0 ensures every-import-statement {C05}: err == nil ==> (forall j int :: 0 <= j && j < len(file.FileImports()) ==> f(responseWriter, request, file.FileImports()[j]) == nil)
+//@   closure 0 ensures error-origin {C05}: err != nil ==> (exists j int :: 0 <= j && j < len(file.FileImports()) && err == f(responseWriter, request, file.FileImports()[j]))
+//@   loop 0 invariant forall j int :: 0 <= j && j < $i ==> f(responseWriter, request, file.FileImports()[j]) == nil
+//@   closure 0 ensures only-listed-elements {C05}: forall x ref :: x in ghost.cbArg2 && !(x in old(ghost.cbArg2)) ==> (exists j int :: 0 <= j && j < len(file.FileImports()) && x == file.FileImports()[j])
+//@   loop 0 invariant forall x ref :: x in ghost.cbArg2 && !(x in old(ghost.cbArg2)) ==> (exists j int :: 0 <= j && j < $i && x == file.FileImports()[j])
+//
+//@ pure func NewLintEnumRuleHandler(f) (r)
+//@   property C05
+//@   callback pure f
+//@   modifies heap, ghost.cbCalls, ghost.cbArgs, ghost.cbArg0, ghost.cbArg1, ghost.cbArg2, ghost.cbArg3, ghost.fail, ghost.wfail
+//@   ensures r != nil
+//@   ensures handler-runs-f-on-every-enum {C05}: forall c context.Context, w ResponseWriter, q Request :: y_run(r, c, w, q) == nil ==> (forall i int, e bufprotosource.Enum :: 0 <= i && i < len(q.ProtosourceFiles()) && !q.ProtosourceFiles()[i].IsImport() && y_nestedEnum(q.ProtosourceFiles()[i], e) ==> f(w, q, e) == nil)
+//@   closure 0 ensures every-enum-nested-ones-included {C05}: err == nil ==> (forall e bufprotosource.Enum :: y_nestedEnum(file, e) ==> f(responseWriter, request, e) == nil)
+//@   closure 0 ensures error-origin {C05}: err != nil ==> (exists e bufprotosource.Enum :: y_nestedEnum(file, e) && err == f(responseWriter, request, e))
+//@   closure 1 ensures forwards {C05}: err == f(responseWriter, request, enum)
+//
+//@ pure func NewLintEnumValueRuleHandler(f) (r)
+//@   property C05
+//@   callback pure f counted
+//@   modifies heap, ghost.cbCalls, ghost.cbArgs, ghost.cbArg0, ghost.cbArg1, ghost.cbArg2, ghost.cbArg3, ghost.fail, ghost.wfail
+//@   ensures r != nil
+//@   ensures handler-runs-f-on-every-enum-value {C05}: forall c context.Context, w ResponseWriter, q Request :: y_run(r, c, w, q) == nil ==> (forall i int, e bufprotosource.Enum, j int :: 0 <= i && i < len(q.ProtosourceFiles()) && !q.ProtosourceFiles()[i].IsImport() && y_nestedEnum(q.ProtosourceFiles()[i], e) && 0 <= j && j < len(e.Values()) ==> f(w, q, e.Values()[j]) == nil)
+//@   closure 0 ensures every-value {C05}: err == nil ==> (forall j int :: 0 <= j && j < len(enum.Values()) ==> f(responseWriter, request, enum.Values()[j]) == nil)
+//@   closure 0 ensures error-origin {C05}: err != nil ==> (exists j int :: 0 <= j && j < len(enum.Values()) && err == f(responseWriter, request, enum.Values()[j]))
+//@   loop 0 invariant forall j int :: 0 <= j && j < $i ==> f(responseWriter, request, enum.Values()[j]) == nil
+//@   closure 0 ensures only-listed-elements {C05}: forall x ref :: x in ghost.cbArg2 && !(x in old(ghost.cbArg2)) ==> (exists j int :: 0 <= j && j < len(enum.Values()) && x == enum.Values()[j])
+//@   loop 0 invariant forall x ref :: x in ghost.cbArg2 && !(x in old(ghost.cbArg2)) ==> (exists j int :: 0 <= j && j < $i && x == enum.Values()[j])
+//
+//@ pure func NewLintMessageRuleHandler(f) (r)
+//@   property C05
+//@   callback pure f
+//@   modifies heap, ghost.cbCalls, ghost.cbArgs, ghost.cbArg0, ghost.cbArg1, ghost.cbArg2, ghost.cbArg3, ghost.fail, ghost.wfail
+//@   ensures r != nil
+//@   ensures handler-runs-f-on-every-message {C05}: forall c context.Context, w ResponseWriter, q Request :: y_run(r, c, w, q) == nil ==> (forall i int, m bufprotosource.Message :: 0 <= i && i < len(q.ProtosourceFiles()) && !q.ProtosourceFiles()[i].IsImport() && y_nestedMsg(q.ProtosourceFiles()[i], m) ==> f(w, q, m) == nil)
+//@   closure 0 ensures every-message-nested-ones-included {C05}: err == nil ==> (forall m bufprotosource.Message :: y_nestedMsg(file, m) ==> f(responseWriter, request, m) == nil)
+//@   closure 0 ensures error-origin {C05}: err != nil ==> (exists m bufprotosource.Message :: y_nestedMsg(file, m) && err == f(responseWriter, request, m))
+//@   closure 1 ensures forwards {C05}: err == f(responseWriter, request, message)
+//
+// Fields: the fields and the extensions declared in every (nested) message, and the extensions declared at file level.
+//@ pure func NewLintFieldRuleHandler(f) (r)
+//@   property C05
+//@   callback pure f
+//@   modifies heap, ghost.cbCalls, ghost.cbArgs, ghost.cbArg0, ghost.cbArg1, ghost.cbArg2, ghost.cbArg3, ghost.fail, ghost.wfail
+//@   ensures r != nil
+//@   ensures handler-runs-f-on-every-message-field {C05}: forall c context.Context, w ResponseWriter, q Request :: y_run(r, c, w, q) == nil ==> (forall i int, m bufprotosource.Message, j int :: 0 <= i && i < len(q.ProtosourceFiles()) && !q.ProtosourceFiles()[i].IsImport() && y_nestedMsg(q.ProtosourceFiles()[i], m) && 0 <= j && j < len(m.Fields()) ==> f(w, q, m.Fields()[j]) == nil)
+//@   ensures handler-runs-f-on-every-nested-extension {C05}: forall c context.Context, w ResponseWriter, q Request :: y_run(r, c, w, q) == nil ==> (forall i int, m bufprotosource.Message, j int :: 0 <= i && i < len(q.ProtosourceFiles()) && !q.ProtosourceFiles()[i].IsImport() && y_nestedMsg(q.ProtosourceFiles()[i], m) && 0 <= j && j < len(m.Extensions()) ==> f(w, q, m.Extensions()[j]) == nil)
+//@   ensures handler-runs-f-on-every-file-level-extension {C05}: forall c context.Context, w ResponseWriter, q Request :: y_run(r, c, w, q) == nil ==> (forall i int, j int :: 0 <= i && i < len(q.ProtosourceFiles()) && !q.ProtosourceFiles()[i].IsImport() && 0 <= j && j < len(q.ProtosourceFiles()[i].Extensions()) ==> f(w, q, q.ProtosourceFiles()[i].Extensions()[j]) == nil)
+//@   closure 0 ensures every-message-field {C05}: err == nil ==> (forall m bufprotosource.Message, j int :: y_nestedMsg(file, m) && 0 <= j && j < len(m.Fields()) ==> f(responseWriter, request, m.Fields()[j]) == nil)
+//@   closure 0 ensures every-nested-extension {C05}: err == nil ==> (forall m bufprotosource.Message, j int :: y_nestedMsg(file, m) && 0 <= j && j < len(m.Extensions()) ==> f(responseWriter, request, m.Extensions()[j]) == nil)
+//@   closure 0 ensures every-file-level-extension {C05}: err == nil ==> (forall j int :: 0 <= j && j < len(file.Extensions()) ==> f(responseWriter, request, file.Extensions()[j]) == nil)
+//@   closure 1 ensures fields {C05}: err == nil ==> (forall j int :: 0 <= j && j < len(message.Fields()) ==> f(responseWriter, request, message.Fields()[j]) == nil)
+//@   closure 1 ensures extensions {C05}: err == nil ==> (forall j int :: 0 <= j && j < len(message.Extensions()) ==> f(responseWriter, request, message.Extensions()[j]) == nil)
+//@   loop 0 invariant forall j int :: 0 <= j && j < $i ==> f(responseWriter, request, message.Fields()[j]) == nil
+//@   loop 1 invariant forall j int :: 0 <= j && j < len(message.Fields()) ==> f(responseWriter, request, message.Fields()[j]) == nil
+//@   loop 1 invariant forall j int :: 0 <= j && j < $i ==> f(responseWriter, request, message.Extensions()[j]) == nil
+//@   loop 2 invariant forall m bufprotosource.Message, j int :: y_nestedMsg(file, m) && 0 <= j && j < len(m.Fields()) ==> f(responseWriter, request, m.Fields()[j]) == nil
+//@   loop 2 invariant forall m bufprotosource.Message, j int :: y_nestedMsg(file, m) && 0 <= j && j < len(m.Extensions()) ==> f(responseWriter, request, m.Extensions()[j]) == nil
+//@   loop 2 invariant forall j int :: 0 <= j && j < $i ==> f(responseWriter, request, file.Extensions()[j]) == nil
+//
+//@ pure func NewLintOneofRuleHandler(f) (r)
+//@   property C05
+//@   callback pure f counted
+//@   modifies heap, ghost.cbCalls, ghost.cbArgs, ghost.cbArg0, ghost.cbArg1, ghost.cbArg2, ghost.cbArg3, ghost.fail, ghost.wfail
+//@   ensures r != nil
+//@   ensures handler-runs-f-on-every-oneof {C05}: forall c context.Context, w ResponseWriter, q Request :: y_run(r, c, w, q) == nil ==> (forall i int, m bufprotosource.Message, j int :: 0 <= i && i < len(q.ProtosourceFiles()) && !q.ProtosourceFiles()[i].IsImport() && y_nestedMsg(q.ProtosourceFiles()[i], m) && 0 <= j && j < len(m.Oneofs()) ==> f(w, q, m.Oneofs()[j]) == nil)
+//@   closure 0 ensures every-oneof {C05}: err == nil ==> (forall j int :: 0 <= j && j < len(message.Oneofs()) ==> f(responseWriter, request, message.Oneofs()[j]) == nil)
+//@   closure 0 ensures error-origin {C05}: err != nil ==> (exists j int :: 0 <= j && j < len(message.Oneofs()) && err == f(responseWriter, request, message.Oneofs()[j]))
+//@   loop 0 invariant forall j int :: 0 <= j && j < $i ==> f(responseWriter, request, message.Oneofs()[j]) == nil
+//@   closure 0 ensures only-listed-elements {C05}: forall x ref :: x in ghost.cbArg2 && !(x in old(ghost.cbArg2)) ==> (exists j int :: 0 <= j && j < len(message.Oneofs()) && x == message.Oneofs()[j])
+//@   loop 0 invariant forall x ref :: x in ghost.cbArg2 && !(x in old(ghost.cbArg2)) ==> (exists j int :: 0 <= j && j < $i && x == message.Oneofs()[j])
+//
+//@ pure func NewLintServiceRuleHandler(f) (r)
+//@   property C05
+//@   callback pure f counted
+//@   modifies heap, ghost.cbCalls, ghost.cbArgs, ghost.cbArg0, ghost.cbArg1, ghost.cbArg2, ghost.cbArg3, ghost.fail, ghost.wfail
+//@   ensures r != nil
+//@   ensures handler-runs-f-on-every-service {C05}: forall c context.Context, w ResponseWriter, q Request :: y_run(r, c, w, q) == nil ==> (forall i int, j int :: 0 <= i && i < len(q.ProtosourceFiles()) && !q.ProtosourceFiles()[i].IsImport() && 0 <= j && j < len(q.ProtosourceFiles()[i].Services()) ==> f(w, q, q.ProtosourceFiles()[i].Services()[j]) == nil)
+//@   closure 0 ensures every-service {C05}: err == nil ==> (forall j int :: 0 <= j && j < len(file.Services()) ==> f(responseWriter, request, file.Services()[j]) == nil)
+//@   closure 0 ensures error-origin {C05}: err != nil ==> (exists j int :: 0 <= j && j < len(file.Services()) && err == f(responseWriter, request, file.Services()[j]))
+//@   loop 0 invariant forall j int :: 0 <= j && j < $i ==> f(responseWriter, request, file.Services()[j]) == nil
+//@   closure 0 ensures only-listed-elements {C05}: forall x ref :: x in ghost.cbArg2 && !(x in old(ghost.cbArg2)) ==> (exists j int :: 0 <= j && j < len(file.Services()) && x == file.Services()[j])
+//@   loop 0 invariant forall x ref :: x in ghost.cbArg2 && !(x in old(ghost.cbArg2)) ==> (exists j int :: 0 <= j && j < $i && x == file.Services()[j])
+//
+//@ pure func NewLintMethodRuleHandler(f) (r)
+//@   property C05
+//@   callback pure f counted
+//@   modifies heap, ghost.cbCalls, ghost.cbArgs, ghost.cbArg0, ghost.cbArg1, ghost.cbArg2, ghost.cbArg3, ghost.fail, ghost.wfail
+//@   ensures r != nil
+//@   ensures handler-runs-f-on-every-method {C05}: forall c context.Context, w ResponseWriter, q Request :: y_run(r, c, w, q) == nil ==> (forall i int, j int, k int :: 0 <= i && i < len(q.ProtosourceFiles()) && !q.ProtosourceFiles()[i].IsImport() && 0 <= j && j < len(q.ProtosourceFiles()[i].Services()) && 0 <= k && k < len(q.ProtosourceFiles()[i].Services()[j].Methods()) ==> f(w, q, q.ProtosourceFiles()[i].Services()[j].Methods()[k]) == nil)
+//@   closure 0 ensures every-method {C05}: err == nil ==> (forall k int :: 0 <= k && k < len(service.Methods()) ==> f(responseWriter, request, service.Methods()[k]) == nil)
+//@   closure 0 ensures error-origin {C05}: err != nil ==> (exists k int :: 0 <= k && k < len(service.Methods()) && err == f(responseWriter, request, service.Methods()[k]))
+//@   loop 0 invariant forall k int :: 0 <= k && k < $i ==> f(responseWriter, request, service.Methods()[k]) == nil
+//@   closure 0 ensures only-listed-elements {C05}: forall x ref :: x in ghost.cbArg2 && !(x in old(ghost.cbArg2)) ==> (exists j int :: 0 <= j && j < len(service.Methods()) && x == service.Methods()[j])
+//@   loop 0 invariant forall x ref :: x in ghost.cbArg2 && !(x in old(ghost.cbArg2)) ==> (exists j int :: 0 <= j && j < $i && x == service.Methods()[j])
+//
+// Per package / per directory: f gets each package (directory) of the NON-IMPORT files together with the files of it.
+//@ pure func NewLintPackageToFilesRuleHandler(f) (r)
+//@   property C05
+//@   callback pure f
+//@   modifies heap, ghost.cbCalls, ghost.cbArgs, ghost.cbArg0, ghost.cbArg1, ghost.cbArg2, ghost.cbArg3, ghost.fail, ghost.wfail
+//@   ensures r != nil
+//@   ensures handler-runs-f-on-every-package {C05}: forall c context.Context, w ResponseWriter, q Request :: y_run(r, c, w, q) == nil ==> (exists fs []bufprotosource.File :: y_nonImportsOf(fs, q.ProtosourceFiles(), len(q.ProtosourceFiles())) && second(bufprotosource.PackageToFiles(fs)) == nil && (forall p string :: p in first(bufprotosource.PackageToFiles(fs)) ==> f(w, q, p, first(bufprotosource.PackageToFiles(fs))[p]) == nil))
+//@   closure 0 ensures every-package {C05}: err == nil ==> second(bufprotosource.PackageToFiles(files)) == nil && (forall p string :: p in first(bufprotosource.PackageToFiles(files)) ==> f(responseWriter, request, p, first(bufprotosource.PackageToFiles(files))[p]) == nil)
+//@   closure 0 ensures error-origin {C05}: err != nil ==> err == second(bufprotosource.PackageToFiles(files)) || (exists p string :: p in first(bufprotosource.PackageToFiles(files)) && err == f(responseWriter, request, p, first(bufprotosource.PackageToFiles(files))[p]))
+//@   loop 0 invariant pkgToFiles == first(bufprotosource.PackageToFiles(files)) && second(bufprotosource.PackageToFiles(files)) == nil
+//@   loop 0 invariant forall p string :: p in $visited ==> f(responseWriter, request, p, pkgToFiles[p]) == nil
+//
+//@ pure func NewLintDirPathToFilesRuleHandler(f) (r)
+//@   property C05
+//@   callback pure f
+//@   modifies heap, ghost.cbCalls, ghost.cbArgs, ghost.cbArg0, ghost.cbArg1, ghost.cbArg2, ghost.cbArg3, ghost.fail, ghost.wfail
+//@   ensures r != nil
+//@   ensures handler-runs-f-on-every-directory {C05}: forall c context.Context, w ResponseWriter, q Request :: y_run(r, c, w, q) == nil ==> (exists fs []bufprotosource.File :: y_nonImportsOf(fs, q.ProtosourceFiles(), len(q.ProtosourceFiles())) && second(bufprotosource.DirPathToFiles(fs)) == nil && (forall d string :: d in first(bufprotosource.DirPathToFiles(fs)) ==> f(w, q, d, first(bufprotosource.DirPathToFiles(fs))[d]) == nil))
+//@   closure 0 ensures every-directory {C05}: err == nil ==> second(bufprotosource.DirPathToFiles(files)) == nil && (forall d string :: d in first(bufprotosource.DirPathToFiles(files)) ==> f(responseWriter, request, d, first(bufprotosource.DirPathToFiles(files))[d]) == nil)
+//@   closure 0 ensures error-origin {C05}: err != nil ==> err == second(bufprotosource.DirPathToFiles(files)) || (exists d string :: d in first(bufprotosource.DirPathToFiles(files)) && err == f(responseWriter, request, d, first(bufprotosource.DirPathToFiles(files))[d]))
+//@   loop 0 invariant dirPathToFiles == first(bufprotosource.DirPathToFiles(files)) && second(bufprotosource.DirPathToFiles(files)) == nil
+//@   loop 0 invariant forall d string :: d in $visited ==> f(responseWriter, request, d, dirPathToFiles[d]) == nil
+//
+// THE RULE TABLES (C03-C06). A RuleSpecBuilder is a check.RuleSpec without categories; Build adds them and copies
+// everything else (ID, handler, type, deprecation) unchanged. The tables of bufcheckserverbuild / bufcheckserver are
+// checked against this contract (see .../bufcheckserverbuild/zz_verif_contracts.go, .../bufcheckserver/zz_verif_contracts.go).
+//@ func (b *RuleSpecBuilder) Build(isDefault, categoryIDs) (r)
+//@   property C03 C04 C05 C06
+//@   ensures fresh: r != nil
+//@   ensures id-copied: r.ID == b.ID
+//@   ensures handler-copied: r.Handler == b.Handler
+//@   ensures categories-as-given: r.CategoryIDs == categoryIDs
+//@   ensures default-as-given: r.Default == isDefault
+//@   ensures rest-copied: r.Type == b.Type && r.Deprecated == b.Deprecated && r.ReplacementIDs == b.ReplacementIDs && r.Purpose == b.Purpose
